@@ -279,6 +279,85 @@ Section RunsTotal.
   Qed.
 End RunsTotal.
 
+(* ------------------------------------------------------------------ (4c) any state of the PackageSet *)
+Section TransferCaches.
+  Context {F D L : Type}.
+  Variable convert : env -> @srcfile F -> bytes -> D.
+  Variable owner : bytes -> bytes.
+  Variable loc1 loc2 : bytes -> bool.
+  Variable ext_file : bytes -> option D.
+  Variable deps_of : D -> list bytes.
+  Variable link1 : D -> list L -> L.
+  Variable b1 b2 : @bundle F.
+  Hypothesis He : bundle_equiv b1 b2.
+  Hypothesis Hv : valid b1.
+  Hypothesis Hloc : forall p, loc1 p = loc2 p.
+
+  Lemma cache_closed_equiv (c : list (bytes * @pkg D)) : cache_closed b1 c -> cache_closed b2 c.
+  Proof.
+    intros Hc q f2 Hp Hf d Hd. destruct (find_pkg_equiv b1 b2 He q f2 Hf) as (f1 & E1 & Hperm).
+    rewrite <- (dep_names_perm q f1 f2 Hperm) in Hd. exact (Hc q f1 Hp E1 d Hd).
+  Qed.
+  Lemma both_ok_equiv pc lc :
+    both_ok convert owner loc1 ext_file deps_of link1 b1 pc lc -> both_ok convert owner loc2 ext_file deps_of link1 b2 pc lc.
+  Proof.
+    intros [[S1 H1] [S2 H2]]. split; split; try assumption.
+    - intros n p Hn. rewrite <- (spec_pkg_equiv convert b1 b2 He Hv). exact (H1 n p Hn).
+    - intros n l Hn. destruct (H2 n l Hn) as [f Hf]. exists f. rewrite <- Hf. apply spec_link_ext.
+      intro p. apply (spec_lookup_equiv convert owner loc1 loc2 ext_file b1 b2 He Hv Hloc).
+  Qed.
+End TransferCaches.
+
+Section RunsAnyState.
+  Variable bd : J5sAst.bundle.
+  Variable exts : list Desc.dfile.
+  Variable pkgs : list bytes.
+  Notation b0 := (flat_bundle pkgs (src_files bd)).
+  Notation conv := (cmpa_convert bd).
+
+  (* the PackageSet may be in ANY state that holds only what loading / linking produce for this source set and is closed
+     under dependencies (what every earlier call, successful or failed, leaves): the call returns the same linked files *)
+  Theorem compile_from_total rank frank n :
+    valid b0 -> well_founded_deps b0 rank -> owner_ok conv split_owner (is_local_of pkgs) b0 ->
+    imports_wf conv split_owner (is_local_of pkgs) (c_ext_file exts) c_deps_of b0 frank ->
+    find_pkg n b0 <> None ->
+    exists out, forall r pc lc, run_ok pkgs bd r ->
+      both_ok conv split_owner (is_local_of pkgs) (c_ext_file exts) c_deps_of c_link1 b0 pc lc -> cache_closed b0 pc ->
+      (rank n < r_fuel r)%nat ->
+      (forall o, In o (map fst (p_files (spec_pkg conv b0 n))) -> (frank o < r_lfuel r)%nat) ->
+      compile_from bd exts r pc lc n = Some out.
+  Proof.
+    intros Hv Hw Ho Hi Hf.
+    destruct (compile_run_total bd exts pkgs rank frank n Hv Hw Ho Hi Hf) as [out0 H0].
+    exists out0. intros r pc lc Hr Hok Hcl Hfu Hlf.
+    pose proof (run_bundle_equiv bd pkgs r Hr) as He.
+    pose proof Hr as (Hp & Hfl & P1 & P2 & P3 & _).
+    set (br := flat_bundle (r_pkgs r) (r_files r)) in *.
+    assert (Hloc : forall p, is_local_of pkgs p = is_local_of (r_pkgs r) p).
+    { intro p. apply is_local_of_perm. apply Permutation_sym. exact Hp. }
+    destruct (compile_and_link_total_deterministic conv split_owner (is_local_of (r_pkgs r)) (c_ext_file exts) c_deps_of c_link1
+                br rank frank (valid_equiv _ _ He Hv) (well_founded_deps_equiv _ _ He rank Hw)
+                (owner_ok_equiv conv split_owner _ _ _ _ He Hv Hloc Ho)
+                (imports_wf_equiv conv split_owner _ _ (c_ext_file exts) c_deps_of _ _ He Hv Hloc frank Hi)
+                n (find_pkg_present _ _ He n Hf)) as [out H].
+    assert (Hlf' : forall o, In o (map fst (p_files (spec_pkg conv br n))) -> (frank o < r_lfuel r)%nat).
+    { intros o Hin. apply Hlf. rewrite (spec_pkg_equiv conv _ _ He Hv). exact Hin. }
+    destruct (H (r_lf r) (r_rd r) (r_rf r) P1 P2 P3 (r_fuel r) (r_lfuel r) pc lc
+                (both_ok_equiv conv split_owner _ _ (c_ext_file exts) c_deps_of c_link1 _ _ He Hv Hloc pc lc Hok)
+                (cache_closed_equiv _ _ He pc Hcl) Hfu Hlf') as (pc' & lc' & E).
+    (* the same [out] is what this run returns from its own empty history *)
+    pose proof (H0 (mkRun (r_pkgs r) (r_files r) (r_lf r) (r_rd r) (r_rf r) (r_fuel r) (r_lfuel r) [] (r_range r))) as E0.
+    unfold compile_run in E0. cbn [r_pkgs r_files r_lf r_rd r_rf r_fuel r_lfuel r_earlier compile_link_seq fst snd] in E0.
+    fold br in E0.
+    destruct (H (r_lf r) (r_rd r) (r_rf r) P1 P2 P3 (r_fuel r) (r_lfuel r) [] []
+                (both_ok_nil conv split_owner _ (c_ext_file exts) c_deps_of c_link1 br) (cache_closed_nil br) Hfu Hlf') as (pc2 & lc2 & E2).
+    rewrite E2 in E0. unfold compile_from. fold br. rewrite E.
+    assert (Hr0 : run_ok pkgs bd (mkRun (r_pkgs r) (r_files r) (r_lf r) (r_rd r) (r_rf r) (r_fuel r) (r_lfuel r) [] (r_range r))).
+    { unfold run_ok. cbn. destruct Hr as (A & B & C & D0 & E' & G). repeat split; assumption. }
+    specialize (E0 Hr0 Hfu Hlf). exact E0.
+  Qed.
+End RunsAnyState.
+
 (* ------------------------------------------------------------------ (5) Range orders *)
 Definition keys_distinct (o : list PF.dopt) : Prop :=
   forall a c, In a o -> In c o -> BR.dopt_key a = BR.dopt_key c -> a = c.
@@ -515,4 +594,24 @@ Proof.
       + cbn [reorder_elem]. f_equal. induction vs as [|v vr IHv]; cbn [map]; [reflexivity|]. rewrite IHv. destruct v; reflexivity.
       + cbn [reorder_elem]. f_equal. induction ms as [|m mr IHm]; cbn [map]; [reflexivity|]. rewrite IHm. destruct m; reflexivity. }
   rewrite <- E at 1. apply reorder_equiv; [intro o; apply Permutation_refl|exact Hp|apply to_print_ok; exact Ha].
+Qed.
+
+(* the headline with the PackageSet in ANY admissible state instead of a history of successful calls *)
+Theorem output_from_any_state bd exts ann pkgs rank frank n :
+  valid (flat_bundle pkgs (src_files bd)) -> well_founded_deps (flat_bundle pkgs (src_files bd)) rank ->
+  owner_ok (cmpa_convert bd) split_owner (is_local_of pkgs) (flat_bundle pkgs (src_files bd)) ->
+  imports_wf (cmpa_convert bd) split_owner (is_local_of pkgs) (c_ext_file exts) c_deps_of (flat_bundle pkgs (src_files bd)) frank ->
+  find_pkg n (flat_bundle pkgs (src_files bd)) <> None -> ann_ok ann ->
+  exists o, forall r pc lc, run_ok pkgs bd r ->
+    both_ok (cmpa_convert bd) split_owner (is_local_of pkgs) (c_ext_file exts) c_deps_of c_link1 (flat_bundle pkgs (src_files bd)) pc lc ->
+    cache_closed (flat_bundle pkgs (src_files bd)) pc ->
+    (rank n < r_fuel r)%nat ->
+    (forall f, In f (map fst (p_files (spec_pkg (cmpa_convert bd) (flat_bundle pkgs (src_files bd)) n))) -> (frank f < r_lfuel r)%nat) ->
+    option_map (render ann (r_range r)) (compile_from bd exts r pc lc n) = Some o.
+Proof.
+  intros Hv Hw Ho Hi Hf Ha.
+  destruct (compile_from_total bd exts pkgs rank frank n Hv Hw Ho Hi Hf) as [out H].
+  exists (render ann (fun l => l) out). intros r pc lc Hr Hok Hcl Hfu Hlf. rewrite (H r pc lc Hr Hok Hcl Hfu Hlf).
+  cbn [option_map]. f_equal. unfold render. apply List.map_ext. intro x. f_equal. unfold print_linked.
+  apply reorder_prints_the_same; [apply Hr|intro l; apply Permutation_refl|apply to_print_ok; exact Ha].
 Qed.
